@@ -90,14 +90,19 @@ func (m *StrMap[V]) LoadFromSlice(kk []string, vv []V) error {
 	if len(kk) != len(vv) {
 		return errors.New("kv len not match")
 	}
+	sz := 0
+	for _, k := range kk {
+		if len(k) > math.MaxUint32 {
+			// it doesn't make sense ...
+			// checked before anything is reset: a failed load leaves the map as it was
+			return errors.New("key too large")
+		}
+		sz += len(k)
+	}
 	m.data = m.data[:0]
 	m.items = m.items[:0]
 	m.hashtable = m.hashtable[:0]
 
-	sz := 0
-	for _, k := range kk {
-		sz += len(k)
-	}
 	if cap(m.data) < sz {
 		m.data = make([]byte, 0, sz)
 	}
@@ -106,10 +111,6 @@ func (m *StrMap[V]) LoadFromSlice(kk []string, vv []V) error {
 	}
 
 	for i, k := range kk {
-		if len(k) > math.MaxUint32 {
-			// it doesn't make sense ...
-			return errors.New("key too large")
-		}
 		v := vv[i]
 		m.items = append(m.items,
 			mapItem[V]{
@@ -259,6 +260,11 @@ func NewStr2StrFromMap(m map[string]string) *Str2Str {
 func (sm *Str2Str) LoadFromSlice(kk, vv []string) error {
 	if len(kk) != len(vv) {
 		return errors.New("kv len not match")
+	}
+	for _, k := range kk {
+		if len(k) > math.MaxUint32 { // as StrMap.LoadFromSlice would find out after the values have been replaced
+			return errors.New("key too large")
+		}
 	}
 	if sm.strStore == nil {
 		sm.strStore = strstore.New()
